@@ -620,10 +620,18 @@ func iterValue(it *simdjson.Iter, t simdjson.Type, depth int) (*ref.Value, error
 			return v, nil
 		}
 		ai := a.Iter()
-		var elem simdjson.Iter
+		// the destination of AdvanceIter is recycled as well (per nesting depth, across arrays and
+		// documents): it last looked at another array, possibly of a document that lived in the
+		// same, since reused, ParsedJson
+		var freshElem simdjson.Iter
+		elemp := &freshElem
+		if SharedDst && depth < len(iterElemPool) {
+			elemp = &iterElemPool[depth]
+		}
 		for {
 			before := ai
-			et, err := ai.AdvanceIter(&elem)
+			et, err := ai.AdvanceIter(elemp)
+			elem := *elemp
 			if err != nil {
 				return nil, err
 			}
@@ -874,9 +882,10 @@ func clip(b []byte) string {
 var rootDst simdjson.Iter
 
 var (
-	objPool     [64]*simdjson.Object
-	arrPool     [64]*simdjson.Array
-	advElemPool [64]simdjson.Iter
+	objPool      [64]*simdjson.Object
+	arrPool      [64]*simdjson.Array
+	advElemPool  [64]simdjson.Iter
+	iterElemPool [64]simdjson.Iter
 )
 
 // SharedDst enables the recycled destinations. Only single-threaded drivers
